@@ -2590,8 +2590,12 @@ impl HnswBackend {
         store.metadata[internal_id].clear();
         drop(store);
 
-        let mut meta_index = self.metadata_index.write();
-        meta_index.remove_doc(internal_id as u64, &old_metadata);
+        {
+            // Scoped: the automatic snapshot below must not run while this guard is held
+            // (tombstone compaction holds snapshot_lock and waits for metadata_index).
+            let mut meta_index = self.metadata_index.write();
+            meta_index.remove_doc(internal_id as u64, &old_metadata);
+        }
 
         drop(write_gate_guard);
         drop(snapshot_guard);
